@@ -1051,6 +1051,24 @@ func (x *Exec) specCall(env *SpecEnv, n *ECall) TV {
 			specFail("isnan() needs a float64")
 		}
 		return mkSpecBool(App("fp.isNaN", SBool, ft))
+	case "bytesbv": // bytesbv(slice, n): the first n bytes of a []byte as an [n]byte value (n <= 64)
+		a := arg(0)
+		sl, ok := a.V.(*SliceV)
+		c, okc := isConstTV(arg(1))
+		if !ok || !okc || c.Int64() <= 0 || c.Int64() > 64 {
+			specFail("bytesbv(slice, n) with constant 0 < n <= 64")
+		}
+		nb := int(c.Int64())
+		var v *Term
+		for i := 0; i < nb; i++ {
+			b := x.loadElem(st, sl.Base, BVBin("bvadd", sl.Off, BVConstU(uint64(i), 64)), types.Typ[types.Uint8]).(*Term)
+			if v == nil {
+				v = b
+			} else {
+				v = Concat(v, b)
+			}
+		}
+		return TV{v, types.NewArray(types.Typ[types.Uint8], int64(nb))}
 	case "natseq": // the big-endian natural number encoded by a byte sequence (as big.Int.SetBytes)
 		s := x.specSeq(arg(0))
 		v := x.D.Fun("natOfSeq", SInt, s)
